@@ -31,4 +31,4 @@ pub proof fn axiom_marks_sub(node: &SyntaxNode)
     ensures marks_sub(node) == marks_level(node.children_s(), 0, false),
 {}
 
-pub open spec fn has_comment_child(ch: Seq<&SyntaxNode>) -> bool { exists|j: int| 0 <= j < ch.len() && is_comment_kind(#[trigger] ch[j].kind_s()) }
+pub open spec fn has_comment_child(ch: Seq<&SyntaxNode>) -> bool { exists|j: int| 0 <= j < ch.len() && is_comment_kind((#[trigger] ch[j]).kind_s()) }
